@@ -577,6 +577,20 @@ func (st *State) applySpec(spec *FuncSpec, sig *types.Signature, args []Value, p
 		st.ghostAssign(env, gs[0], gs[1])
 		st.assumeAll(env.defs)
 	}
+	// channel counters are exempt from modifies clauses (and from the callee's frame check): a callee whose body
+	// (transitively, through static calls) contains channel operations may have changed them
+	if callee != nil {
+		names := map[string]bool{}
+		e.chanCounters(callee, 0, names, map[*ssa.Function]bool{})
+		var ns []string
+		for n := range names {
+			ns = append(ns, n)
+		}
+		sort.Strings(ns)
+		for _, n := range ns {
+			st.heapHavoc(n, ArraySort(SInt, SInt))
+		}
+	}
 	for _, c := range spec.Ensures {
 		if strings.HasPrefix(c.Label, "!") {
 			continue // private clause: proved for the function, not exported to callers (keeps their context small)
@@ -1159,11 +1173,21 @@ func (e *Engine) instrWrites(in ssa.Instruction, ws *writeSet) {
 		}
 	case *ssa.Send, *ssa.Select, *ssa.MakeChan:
 		ws.heap["CH_closed"] = ArraySort(SInt, SBool)
-		ws.heap["NCS"] = ArraySort(SInt, SInt)
-		ws.heap["NCR"] = ArraySort(SInt, SInt)
+		switch y := x.(type) {
+		case *ssa.Send:
+			ws.heap[chanCounterName("NCS", y.Chan.Type())] = ArraySort(SInt, SInt)
+		case *ssa.Select:
+			for _, s := range y.States {
+				if s.Dir == types.RecvOnly {
+					ws.heap[chanCounterName("NCR", s.Chan.Type())] = ArraySort(SInt, SInt)
+				} else {
+					ws.heap[chanCounterName("NCS", s.Chan.Type())] = ArraySort(SInt, SInt)
+				}
+			}
+		}
 	case *ssa.UnOp:
 		if x.Op == token.ARROW {
-			ws.heap["NCR"] = ArraySort(SInt, SInt)
+			ws.heap[chanCounterName("NCR", x.X.Type())] = ArraySort(SInt, SInt)
 		}
 	case *ssa.Call:
 		e.callWrites(&x.Call, ws)
@@ -1518,7 +1542,7 @@ func (u *Unit) checkFrame(st *State, pos token.Pos) {
 	}
 	sort.Strings(names)
 	for _, n := range names {
-		if allowedAll[n] || n == "RO" || strings.HasPrefix(n, "NC_") || strings.HasPrefix(n, "NCF_") || n == "NCR" || n == "NCS" || strings.HasPrefix(n, "CH_") {
+		if allowedAll[n] || n == "RO" || strings.HasPrefix(n, "NC_") || strings.HasPrefix(n, "NCF_") || strings.HasPrefix(n, "NCR_") || strings.HasPrefix(n, "NCS_") || strings.HasPrefix(n, "CH_") {
 			continue
 		}
 		sortN := e.heapSorts[n]
@@ -1821,3 +1845,40 @@ func (st *State) assumeGlobalInvs() {
 }
 
 var _ = fmt.Sprintf
+
+
+// chanCounters: the send/receive counters (per element type) the function may change - its own channel operations and
+// those of the functions it calls statically (to depth 8)
+func (e *Engine) chanCounters(fn *ssa.Function, depth int, out map[string]bool, seen map[*ssa.Function]bool) {
+	if fn == nil || fn.Blocks == nil || depth > 8 || seen[fn] {
+		return
+	}
+	seen[fn] = true
+	for _, b := range fn.Blocks {
+		for _, in := range b.Instrs {
+			switch x := in.(type) {
+			case *ssa.Send:
+				out[chanCounterName("NCS", x.Chan.Type())] = true
+			case *ssa.Select:
+				for _, s := range x.States {
+					if s.Dir == types.RecvOnly {
+						out[chanCounterName("NCR", s.Chan.Type())] = true
+					} else {
+						out[chanCounterName("NCS", s.Chan.Type())] = true
+					}
+				}
+			case *ssa.UnOp:
+				if x.Op == token.ARROW {
+					out[chanCounterName("NCR", x.X.Type())] = true
+				}
+			case ssa.CallInstruction:
+				if sc := x.Common().StaticCallee(); sc != nil {
+					e.chanCounters(sc, depth+1, out, seen)
+				}
+			}
+		}
+	}
+	for _, af := range fn.AnonFuncs {
+		e.chanCounters(af, depth+1, out, seen)
+	}
+}
